@@ -232,9 +232,9 @@ static Op gen_pattern_op_unfiltered(Rng& r, bool with_input) {
     if (r.chance(1, 2)) op.args[3] = pick(r, hostp);
     if (r.chance(1, 4)) op.args[4] = pickl(r, {"443", "80", "8080", "*", ":port", ""});
     if (r.chance(3, 4)) op.args[5] = gen_pat_path(r);
-    if (r.chance(1, 4)) op.args[6] = r.chance(1, 2) ? std::string(pick(r, kLit)) : std::string(pickl(r, {"q=:v", "*", "a=b", "", ":query(.*)", "(.*)", "\\?a", "a"}));
-    if (r.chance(1, 5)) op.args[7] = r.chance(1, 2) ? std::string(pick(r, kLit)) : std::string(pickl(r, {":h", "*", "frag", "", ":frag(.*)", "\\#x"}));
-    if (r.chance(1, 8)) op.args[1] = pickl(r, {"user", "*", ":u", ":user(.*)"});
+    if (r.chance(1, 4)) op.args[6] = r.chance(1, 2) ? std::string(pick(r, kLit)) : std::string(pickl(r, {"q=:v", "*", "a=b", "", ":query(.*)", "(.*)", "\\?a", "a", "{foo}?", "{ab}+", "{q=1}*", "{a}?"}));
+    if (r.chance(1, 5)) op.args[7] = r.chance(1, 2) ? std::string(pick(r, kLit)) : std::string(pickl(r, {":h", "*", "frag", "", ":frag(.*)", "\\#x", "{foo}?", "{x}+", "{frag}*"}));
+    if (r.chance(1, 8)) op.args[1] = pickl(r, {"user", "*", ":u", ":user(.*)", "{u}*", "{user}?"});
     if (r.chance(1, 12)) op.args[2] = pickl(r, {"pw", "*", ":pw(.*)"});
     if (r.chance(1, 6)) op.args[8] = "https://example.com/base/";
   }
@@ -247,8 +247,9 @@ static Op gen_pattern_op_unfiltered(Rng& r, bool with_input) {
     if (r.chance(1, 10)) u = std::string("file://") + pickl(r, {"", "localhost", "host"});
     if (r.chance(1, 4)) u += pickl(r, {":443", ":8080", ":80"});
     u += gen_in_path(r);
-    if (r.chance(1, 3)) u += r.chance(1, 2) ? std::string("?") + unescape_lit(pick(r, kLit)) : std::string(pickl(r, {"?q=1", "?a=b", "?"}));
-    if (r.chance(1, 4)) u += r.chance(1, 2) ? std::string("#") + unescape_lit(pick(r, kLit)) : std::string(pickl(r, {"#frag", "#", "#x"}));
+    if (r.chance(1, 3)) u += r.chance(1, 2) ? std::string("?") + unescape_lit(pick(r, kLit)) : std::string(pickl(r, {"?q=1", "?a=b", "?", "?foo", "?abab", "?q=1q=1"}));
+    else if (r.chance(1, 60)) u += "?" + std::string(pickl_u(r, {8191, 8192, 8193, 9000, 20000}), 'q');  // one very long component
+    if (r.chance(1, 4)) u += r.chance(1, 2) ? std::string("#") + unescape_lit(pick(r, kLit)) : std::string(pickl(r, {"#frag", "#", "#x", "#foo", "#xx"}));
     if (r.chance(1, 10)) {
       u = gen_in_path(r);
       op.args[10] = "https://example.com/base/";
@@ -382,9 +383,19 @@ static Op gen_pair_op(Rng& r, std::string& kind) {
     // username / password / search / hash are DEFINED through the URL API setters on a dummy URL: the pattern string of a
     // literal value must be the escaped result of that setter
     kind = "setter";
-    static const int comps[] = {1, 2, 6, 7};
+    static const int comps[] = {1, 2, 6, 7, 3};
     int comp = pick(r, comps);
     std::string v;
+    if (comp == 3) {
+      // hostname: defined through the host setter. Bracketed values of two or more characters are canonicalised lexically
+      // by the Standard (no compression of zero runs) and are left out; the single character '[' is not one of them.
+      v = r.chance(1, 6) ? std::string(pickl(r, {"[", "]", "a[", "[a", "x]"})) : gen_host(r);
+      if (v.size() >= 2 && v[0] == '[') v = "host-" + v.substr(1);
+      v = sanitize_utf8(v);
+      op.args[3] = esc_pattern(v);
+      op.args[9] = v;
+      return op;
+    }
     int n = r.range(0, 6);
     for (int i = 0; i < n; i++) {
       switch (r.below(6)) {
@@ -666,6 +677,13 @@ static bool pattern_coherence(const Op& op, const std::string& obs, std::string&
     why = "match()=" + m + " but exec()=" + e;
     return false;
   }
+  {
+    std::string again = snap_field(obs, "test.again"), fresh = snap_field(obs, "test.fresh");
+    if (!again.empty() && again != fresh) {
+      why = "history: test() on the already used pattern object answers " + again + " (other base, first base) but a fresh object answers " + fresh;
+      return false;
+    }
+  }
   const int itype = (op.sub >> 2) & 3;
   if (e == "result" && itype == 1 && op.args.size() > 9 && op.args[9]) {
     // component inputs must be the components of the URL the input denotes
@@ -836,7 +854,7 @@ static Result execute(const Plan& p, Stats& st) {
   if (p.property == "C15" && A[0].find("construct=ok") != std::string::npos) st.add("pattern.constructed");
   if (p.property == "C15" && p.cfg_s("pair") == "setter" && !ops.empty() && ops[0].args.size() > 9 && ops[0].args[9]) {
     int comp = -1;
-    for (int k : {1, 2, 6, 7})
+    for (int k : {1, 2, 6, 7, 3})
       if (ops[0].args[size_t(k)]) comp = k;
     const std::string raw = *ops[0].args[9];
     // The Standard's dummy URL is a fresh URL record: its scheme is empty, hence NOT special, so the query is encoded with
@@ -846,6 +864,14 @@ static Result execute(const Plan& p, Stats& st) {
       hs.off();
       bool ok = true;
       std::string got_setter;
+      if (comp == 3) {
+        auto special = ada::parse<ada::url_aggregator>("https://dummy.test/");  // hostnames go through the special-URL host parser (IDNA, IPv4)
+        ok = special && special->set_hostname(raw) && !raw.empty();
+        if (ok) got_setter = std::string(special->get_hostname());
+        // the setter stops at the first '/', '?', '#', ':' or backslash and ignores the rest; the canonicaliser rejects such
+        // values instead. Only values the setter consumed completely are comparable.
+        if (raw.find_first_of("/?#:\\\t\n\r") != std::string::npos) ok = false, comp = -1;
+      }
       if (comp == 1) { ok = dummy->set_username(raw); got_setter = std::string(dummy->get_username()); }
       if (comp == 2) { ok = dummy->set_password(raw); got_setter = std::string(dummy->get_password()); }
       if (comp == 6) { dummy->set_search(raw); got_setter = std::string(dummy->get_search()); if (!got_setter.empty() && got_setter[0] == '?') got_setter.erase(0, 1); }
@@ -855,10 +881,15 @@ static Result execute(const Plan& p, Stats& st) {
       Hist<ada::url_aggregator> h1;
       std::string a = exec_op(only, h1).text;
       st.add("pair.setter.checked");
-      static const char* const fld[] = {"", "p.username", "p.password", "", "", "", "p.search", "p.hash"};
+      static const char* const fld[] = {"", "p.username", "p.password", "p.hostname", "", "", "p.search", "p.hash"};
       bool oka = a.find("construct=ok") != std::string::npos;
       std::string why;
-      if (!ok) {
+      if (comp < 0) {
+        st.add("pair.setter.not_comparable");
+      } else if (!ok && comp == 3 && !raw.empty()) {
+        st.add("pair.setter.setter_refused");
+        if (oka) why = std::string("p.hostname: construction succeeds with '") + printable(snap_field(a.substr(2), "p.hostname")) + "' although the URL host setter rejects the value";
+      } else if (!ok) {
         st.add("pair.setter.setter_refused");
       } else if (!oka) {
         why = std::string(fld[comp]) + ": construction fails although the URL setter accepts the value and gives '" + printable(got_setter) + "'";
@@ -871,7 +902,7 @@ static Result execute(const Plan& p, Stats& st) {
       if (!why.empty()) {
         res.violation = true;
         res.vclass = "component-differs-from-url-setter";
-        res.sig = fld[comp];
+        res.sig = comp >= 0 ? fld[comp] : "?";
         res.detail = only.pretty() + " (raw value '" + printable(raw) + "'): " + why;
         return res;
       }
